@@ -149,7 +149,7 @@ Qed.
 
 Lemma gen_step_inv o g : ginv g -> ginv (fst (gen_step o g)).
 Proof.
-  intros Hi. destruct o as [limit os|seq sw ex os|ex|now| |l ex]; simpl.
+  intros Hi. destruct o as [limit os|seq sw ex os|ex|now| |l ex| ]; simpl.
   - unfold gen_set_max. destruct (g_len0 g); [assumption|].
     destruct (issue_n _ os g) as [g' r] eqn:E. simpl. eapply issue_n_inv; eauto.
   - unfold gen_retire. destruct (g_highest g <? seq); [assumption|].
@@ -170,6 +170,7 @@ Proof.
   - unfold gen_remove_retired. destruct (remove_retired now (g_toretire g) (g_log g)) as [l log] eqn:E.
     destruct Hi as (Hnd & Hle & Hs). destruct (remove_retired_spec _ _ _ _ _ E Hs) as (Hs' & _).
     unfold ginv; simpl. auto.
+  - assumption.
   - assumption.
   - assumption.
 Qed.
@@ -217,7 +218,7 @@ Lemma gen_step_bound L o g :
   zlength (g_active g) <= Z.max 1 (Z.min L MaxIssuedConnectionIDs) ->
   zlength (g_active (fst (gen_step o g))) <= Z.max 1 (Z.min L MaxIssuedConnectionIDs).
 Proof.
-  intros HL Hb. destruct o as [limit os|seq sw ex os|ex|now| |l ex]; simpl in *.
+  intros HL Hb. destruct o as [limit os|seq sw ex os|ex|now| |l ex| ]; simpl in *.
   - unfold gen_set_max. destruct (g_len0 g); [assumption|].
     destruct (issue_n _ os g) as [g' r] eqn:E. simpl. apply issue_n_len in E. lia.
   - unfold gen_retire. destruct (g_highest g <? seq); [assumption|].
@@ -230,6 +231,7 @@ Proof.
     apply issue_len in E. simpl in *. lia.
   - unfold gen_hsdone. destruct (g_initial g); assumption.
   - unfold gen_remove_retired. destruct (remove_retired _ _ _). assumption.
+  - assumption.
   - assumption.
   - assumption.
 Qed.
@@ -302,7 +304,7 @@ Qed.
 
 Lemma gen_step_frames o g : ginv g -> frames_ok g -> frames_ok (fst (gen_step o g)).
 Proof.
-  intros Hinv Hi. destruct o as [limit os|seq sw ex os|ex|now| |l ex]; simpl.
+  intros Hinv Hi. destruct o as [limit os|seq sw ex os|ex|now| |l ex| ]; simpl.
   - unfold gen_set_max. destruct (g_len0 g); [assumption|].
     destruct (issue_n _ os g) as [g' r] eqn:E. simpl. eapply issue_n_frames; eauto.
   - unfold gen_retire. destruct (g_highest g <? seq); [assumption|].
@@ -317,6 +319,7 @@ Proof.
     destruct Hinv as (_ & _ & Hs). destruct (remove_retired_spec _ _ _ _ _ E Hs) as (_ & _ & gone & _ & -> & _).
     destruct Hi as (n & Hh & Hf). exists n. simpl. rewrite frames_app, frames_rev_rem. auto.
   - destruct Hi as (n & Hh & Hf). exists n. simpl. rewrite frames_app, frames_rev_rem. auto.
+  - assumption.
   - assumption.
 Qed.
 
@@ -393,7 +396,7 @@ Definition not_close (o : gop) : Prop :=
 
 Lemma gen_step_route i cd o g : not_close o -> ginv g -> route_inv i cd g -> route_inv i cd (fst (gen_step o g)).
 Proof.
-  intros Hnc Hinv Hr. destruct o as [limit os|seq sw ex os|ex|now| |l ex]; simpl.
+  intros Hnc Hinv Hr. destruct o as [limit os|seq sw ex os|ex|now| |l ex| ]; simpl.
   - unfold gen_set_max. destruct (g_len0 g); [assumption|].
     destruct (issue_n _ os g) as [g' r] eqn:E. simpl. eapply issue_n_route; eauto.
   - unfold gen_retire. destruct (g_highest g <? seq); [assumption|].
@@ -416,6 +419,7 @@ Proof.
     rewrite rcount_app, rcount_rev_rem. rewrite Hl in Hr. rewrite map_app, cnt_app in Hr. lia.
   - destruct Hnc.
   - intros x. specialize (Hr x). unfold routed in *. simpl. assumption.
+  - assumption.
 Qed.
 
 Lemma gen_run_route i cd ops : forall g, Forall not_close ops -> ginv g -> route_inv i cd g ->
@@ -484,3 +488,77 @@ Qed.
 
 Lemma limits_at_least_two : 2 <= MaxActiveConnectionIDs /\ 2 <= MaxIssuedConnectionIDs.
 Proof. unfold MaxActiveConnectionIDs, MaxIssuedConnectionIDs. lia. Qed.
+
+(* ------------------------------------------------------------------------- *)
+(** * Routing, set level (round 3) *)
+
+(** how often AddConnectionID was called for [c] *)
+Fixpoint adds (c : cid) (log : list gev) : Z :=
+  match log with
+  | [] => 0
+  | GAdd x :: r => b2z (cid_eqb x c) + adds c r
+  | _ :: r => adds c r
+  end.
+
+Lemma rcount_le_adds c log : rcount c log <= adds c log.
+Proof.
+  induction log as [|e log IH]; simpl; [lia|]. destruct e; try lia.
+  destruct (cid_eqb c0 c); unfold b2z; lia.
+Qed.
+
+Lemma cnt_in c l : 1 <= cnt c l <-> In c l.
+Proof.
+  induction l as [|x l IH]; simpl; [split; [lia|intros []]|].
+  pose proof (cnt_nonneg c l). destruct (cid_eqb x c) eqn:E; unfold b2z.
+  - apply zeqb_list_eq in E. subst. split; [auto|lia].
+  - split.
+    + intros H1. right. apply IH. lia.
+    + intros [->|Hin]; [|apply IH in Hin; lia].
+      assert (cid_eqb c c = true) by (apply zeqb_list_eq; reflexivity). congruence.
+Qed.
+
+Lemma cnt_le1_nodup l : (forall c, cnt c l <= 1) -> NoDup l.
+Proof.
+  induction l as [|x l IH]; intros H; constructor.
+  - intros Hin. apply cnt_in in Hin. specialize (H x). simpl in H.
+    assert (E : cid_eqb x x = true) by (apply zeqb_list_eq; reflexivity). rewrite E in H. unfold b2z in H. lia.
+  - apply IH. intros c. specialize (H c). simpl in H. destruct (cid_eqb x c); unfold b2z in H; lia.
+Qed.
+
+(** Set-level routing theorem. If no connection ID is handed to the runner twice (the
+    generated IDs are fresh and differ from the two initial IDs - what the harness monitor
+    route-double-add checks on the implementation), then the IDs the generator knows are
+    pairwise distinct and the runner routes exactly them, each once. *)
+Theorem gen_routing_exact_set i cd l0 ops :
+  Forall not_close ops ->
+  let g := gen_run ops (gen_init i cd l0) in
+  (forall c, init_count i cd c + adds c (g_log g) <= 1) ->
+  NoDup (gen_all_ids g) /\
+  (forall c, routed i cd g c = 1 <-> In c (gen_all_ids g)) /\
+  (forall c, routed i cd g c = 0 \/ routed i cd g c = 1).
+Proof.
+  intros HF g Hfresh. destruct (gen_routing_exact i cd l0 ops HF) as (Hr & _). fold g in Hr.
+  assert (Hle : forall c, cnt c (gen_all_ids g) <= 1).
+  { intros c. rewrite <- Hr. unfold routed. pose proof (rcount_le_adds c (g_log g)). specialize (Hfresh c). lia. }
+  split; [apply cnt_le1_nodup; assumption|]. split.
+  - intros c. rewrite Hr. rewrite <- cnt_in. specialize (Hle c). lia.
+  - intros c. rewrite Hr. specialize (Hle c). pose proof (cnt_nonneg c (gen_all_ids g)). lia.
+Qed.
+
+(** non-vacuity of the freshness hypothesis *)
+Lemma gen_fresh_example :
+  let ops := [GSetMax 2 [Some [3]]; GHsDone 10; GRetire 1 [1] 20 [Some [4]]; GRemoveRetired 15] in
+  Forall not_close ops /\
+  forall c, init_count [1] (Some [2]) c + adds c (g_log (gen_run ops (gen_init [1] (Some [2]) false))) <= 1.
+Proof.
+  split; [repeat constructor|]. intros c.
+  match goal with |- context [g_log ?g] => let v := eval vm_compute in (g_log g) in change (g_log g) with v end.
+  unfold init_count. cbn [adds].
+  assert (E : forall a b : cid, a <> b -> cid_eqb a c = true -> cid_eqb b c = true -> False).
+  { intros a b Hne Ha Hb. apply zeqb_list_eq in Ha, Hb. congruence. }
+  destruct (cid_eqb [1] c) eqn:E1, (cid_eqb [2] c) eqn:E2, (cid_eqb [3] c) eqn:E3, (cid_eqb [4] c) eqn:E4; unfold b2z; try lia;
+    exfalso;
+    first [ exact (E [1] [2] ltac:(discriminate) E1 E2) | exact (E [1] [3] ltac:(discriminate) E1 E3)
+          | exact (E [1] [4] ltac:(discriminate) E1 E4) | exact (E [2] [3] ltac:(discriminate) E2 E3)
+          | exact (E [2] [4] ltac:(discriminate) E2 E4) | exact (E [3] [4] ltac:(discriminate) E3 E4) ].
+Qed.
